@@ -1,5 +1,6 @@
 """C05 check specification (see lib/specs/__init__.py for the field reference)."""
 
+# the merkleroot harness of C05 re-uses the Coq-term printers and generators of the C03 harness file
 _MR = ['harness/commit/merkleroot/c03_test.go', 'harness/commit/merkleroot/c05_test.go']
 
 SPEC = {
@@ -17,4 +18,40 @@ SPEC = {
          'sinks': {'C05_gate': 'gate5_judge'}, 'n': {'quick': 400, 'thorough': 10000}},
     ],
     'known': {},
+    'rule': 'obs: Processor.Observation with RMN enabled (5/6) or not, previous outcome type over building / every other state / '
+            'out-of-range, previous RMN config empty or not, controller already initialised / initialised now / failing, destination '
+            'known to chain-selectors or not, off-ramp address lookup failing or not, query = no bundle or a bundle around two roots '
+            '(exact, one component changed, subset, superset, duplicate, none, malformed: nil / short signature, nil lane, nil lane '
+            'source, nil interval, root of wrong length) with 0..3 signatures, retry flag 1 in 5, recording RMNCrypto fake answering '
+            'yes (3/4) or no; build: Processor.Outcome in the building state on 0..3 agreed roots (nil / empty / non-empty on-ramp '
+            'address) and a bundle deviating from them in exactly one of chain, interval start, interval end, root, address, or '
+            'subset / superset / duplicate / none / malformed; report: Plugin.Reports on outcomes with type x roots 0..3 x signatures '
+            '{0,F,F+1,F+2} x F 0..3 x gas prices, and what it emits handed to ShouldAcceptAttestedReport; gate: '
+            'ShouldAcceptAttestedReport on hand-made reports with RemoteF in {0..3, 2^63-2, 2^63-1, 2^63, 2^64-2, 2^64-1}. '
+            'non-trivial = obs: RMN enabled and building state; build: >= 1 agreed root and a bundle; report / gate: >= 1 root and '
+            'RMN enabled; distinct by full input',
+    'trusted': ['RMNCrypto.VerifyReportSignatures is an oracle (a predicate over signatures, report and signer addresses); the '
+                'theorems hold for every such predicate; the harness uses a recording fake and compares the arguments of the call',
+                'chainsel.ChainBySelector, CCIPReader.GetContractAddress, RMN controller initialisation are oracles (inputs)',
+                'the report codec (JSON mock) and ReportInfo JSON round trip are exercised, not modelled',
+                'getConsensusObservation (C01) is an input: the harness hands the real result to the model',
+                'libocr: Outcome is called only on a quorum of observations, so a building round whose query every honest oracle '
+                'refuses produces no outcome (used to read C05_reported_roots_verified as the end-to-end statement)'],
+    'assumptions': ['every previous outcome was written by the state machine itself (sigs_imply_roots is an invariant, it holds of the '
+                    'initial empty outcome)'],
+    'level_text': 'Proof: 15 Coq theorems. Observation in a building round (RMN enabled, no retry) succeeds only with a well-formed '
+                  'bundle whose signatures the crypto oracle accepted for exactly the report built from the previous outcome\'s RMN '
+                  'config and the bundle\'s lane updates; a bundle in any other round is refused; the only unverified observations are '
+                  'RMN off / no bundle outside building / announced retry; with a bundle the reported roots are exactly the agreed '
+                  'roots equal to a signed lane update on chain, interval, address and root (iff), sorted, one per chain; composition '
+                  'of the two; signatures never without roots over any run and in the emitted report (after fixes/F11.patch); accepted '
+                  'with roots only with F+1 signatures for every F (after fixes/F28.patch); refutations of the unrepaired functions '
+                  '(F10 panic, F11, F28). Correspondence: Observation with a recording crypto fake, Outcome, Reports and '
+                  'ShouldAcceptAttestedReport run against the model every run',
+    'level_note': 'Trusted: Coq kernel, hand-written model, differential harness. Signature verification, address lookups and the '
+                  'consensus computation are oracles / inputs. No axioms.',
+    'modelled': 'initializeRMNController (as an input code), verifyQuery, shouldSkipRMNVerification, NewECDSASigsFromPB, '
+                'NewLaneUpdatesFromPB, buildReport, the merkle-root part of Plugin.Reports, the RMN gate of ShouldAcceptAttestedReport '
+                '(curse check and decode errors are inputs, see C16/C15). With RMN disabled a leader-supplied bundle still filters '
+                'roots in buildReport (observation F10b; not part of the property text)',
 }
